@@ -270,7 +270,7 @@ def layout_fn(P, u, rep, fname, union):
                     if s is None:
                         er = [x for x in errs if x[1].applies(e)]
                         if er:
-                            bad.setdefault('placement', (e, 'the compiler stops with %s() instead of laying the member out' % er[0][2], None))
+                            bad.setdefault('placement', (e, 'the compiler stops with %s() instead of laying the member out' % er[0][2], None, ()))
                             continue
                         raise Uninterpretable('no path summary applies to the state %r' % (e,))
                     want = (oracle_union if union else oracle_struct)(cls, packed, e)
@@ -283,12 +283,15 @@ def layout_fn(P, u, rep, fname, union):
                     for k, w in want.items():
                         if k not in got:
                             raise Uninterpretable('summary has no value for %s' % k)
-                        if got[k] != w and GROUP[k] not in bad:
-                            bad[GROUP[k]] = (e, '%s is %d, psABI: %d' % (WHAT[k], got[k], w), s)
+                        if got[k] != w:
+                            rank = (e['S'] == 0, e['TA'] != e['S'] and e['MA'] == e['TA'], abs(e['S'] - 4), e['A'], e['B'], e['Z'], e['W'], e['MA'])
+                            cur = bad.get(GROUP[k])
+                            if cur is None or rank < cur[3]:
+                                bad[GROUP[k]] = (e, '%s is %d, %s: %d' % (WHAT[k], got[k], 'gcc' if packed else 'psABI', w), s, rank)
                 groups = ('placement', 'type-align') if not union else ('union-size', 'type-align')
                 for g in groups:
                     if g in bad:
-                        e, msg, s = bad[g]
+                        e, msg, s, _rank = bad[g]
                         txt = '%s: %s' % (describe(cls, packed, e, union), msg)
                         facts = {'state': e}
                         if s is not None:
@@ -422,10 +425,10 @@ def r082(P, u, rep):
                 wa = align if isinstance(align, int) else ba
                 gs, ga = fs(e), fa(e)
                 if gs != ws:
-                    bad.append('size of %s(base of size %d, align %d%s) is %d, must be %d' % (ctor, bs, ba, (', len %d' % ln) if cname == 'array' else '', gs, ws))
+                    bad.append('size of the type built by %s(%s) is %d, must be %d' % (ctor, ('base of size %d, align %d, len %d' % (bs, ba, ln)) if cname == 'array' else '', gs, ws))
                     break
                 if ga != wa:
-                    bad.append('alignment of %s(base of size %d, align %d) is %d, must be %d' % (ctor, bs, ba, ga, wa))
+                    bad.append('alignment of the type built by %s(%s) is %d, must be %d' % (ctor, ('base of size %d, align %d' % (bs, ba)) if cname == 'array' else '', ga, wa))
                     break
             if uns is not None:
                 gu = _concrete(o.fields.get('is_unsigned', 0))
@@ -732,6 +735,11 @@ def r084(P, u, rep):
                 if not r.inner:
                     continue
                 e = r.inner[0].strip()
+                if e.kind == 'DeclRefExpr' and e.ref_kind == 'VarDecl':
+                    # `Node *n = new_ulong(...); return n;`
+                    for d in n.inner[1].find('VarDecl'):
+                        if d.id == e.ref_id and 'init' in d.d and d.inner:
+                            e = d.inner[-1].strip()
                 # returns in the then-branch of a `kind == TY_VLA` test compute the size at run time
                 vla = False
                 for a in r.ancestors():
@@ -828,7 +836,7 @@ def r084(P, u, rep):
                     kind = ty.fields.get('kind') if isinstance(ty, Obj) else None
                     kind = it.settle(kind) if isinstance(kind, View) else kind
                     kinds = set(kind.proj(c) for c in kind.cell.cands) if isinstance(kind, View) else {kind}
-                    if u.enums.get('TY_VLA') in kinds:
+                    if kinds == {u.enums.get('TY_VLA')}:
                         continue       # VLAs live in alloca'd storage
                 if tname == 'Member' and isinstance(ty, Obj) and ty.label == 'basety':
                     flavour = 'anonymous-member'
@@ -852,7 +860,7 @@ def r084(P, u, rep):
                     # the path that creates the object never looks at the specifier
                     ok = False
                     case = 'with-alignas'
-                    msg = 'a %s never receives an _Alignas value: %s() does not read the specifier\'s alignment on the path that creates the object, `static _Alignas(64) char buf[..]` is aligned like a char' % (nice, fname)
+                    msg = 'a %s never receives an _Alignas value: %s() does not read the specifier\'s alignment on the path that creates it, so `_Alignas(64) char buf[..]` declared this way is aligned like a char' % (nice, fname)
                 k = '%s/%s' % (flavour, case)
                 cur = res.get(k)
                 if cur is None or (cur[0] and not ok):
